@@ -101,7 +101,7 @@ func newSpecSet() *SpecSet {
 
 var keywords = map[string]bool{"func": true, "serves": true, "assumed": true, "requires": true, "ensures": true,
 	"loop": true, "invariant": true, "decreases": true, "spec": true, "axiom": true, "lang": true, "lemma": true,
-	"option": true, "policy": true, "table": true, "end": true}
+	"option": true, "policy": true, "table": true, "end": true, "groupchar": true, "finding": true, "bounded": true}
 
 var labelRe = regexp.MustCompile(`^([A-Za-z_][A-Za-z0-9_.]*):\s+(.*)$`)
 
